@@ -1,49 +1,23 @@
-import SparseSpace.Model.Combi
-import Mathlib.Tactic.Ring
-import Mathlib.Tactic.Linarith
-import Mathlib.Algebra.BigOperators.Group.List.Basic
-/-! Helper lemmas for C01 (invariant of the adaptive scheme, inclusion–exclusion identity). -/
+import SparseSpace.Lemmas.CombiBasic
+import SparseSpace.Lemmas.CombiInit
+import SparseSpace.Lemmas.CombiInv
+import SparseSpace.Lemmas.CombiCoeff
+import SparseSpace.Lemmas.CombiIdent
+/-!
+Helper lemmas for C01 (invariant of the adaptive scheme, inclusion–exclusion identity).
+
+The material is split over several files; this module re-exports everything under the original names:
+* `CombiBasic`: `geAll`, `I`, `SchemeInv`, lemmas on `bump`, `leAll`, sums;
+* `CombiInit`:  characterisation of `getGrids` / `initActive` / `initOld`, `inv_init`;
+* `CombiInv`:   `update_not_refinable`, `runOps_dim`, `runOps_lmin`, `inv_update`;
+* `CombiCoeff`: `downward_closed`, the dictionary lemma, the per-element stencil collapse;
+* `CombiIdent`: `coeff_identity`, `coeff_support`, `coeff_total`.
+-/
 namespace SparseSpace
-
-def geAll (lmin : Int) (l : LV) : Prop := ∀ x ∈ l, lmin ≤ x
-
-/-- the index set `old ∪ active` -/
-def I (s : CS) : List LV := s.old ++ s.active
-
-/-- state invariant of the adaptive scheme -/
-structure SchemeInv (s : CS) : Prop where
-  shape    : ∀ l ∈ I s, l.length = s.dim ∧ geAll s.lmin l
-  nodupA   : s.active.Nodup
-  nodupO   : s.old.Nodup
-  disjoint : ∀ l ∈ s.active, l ∉ s.old
-  backOld  : ∀ l ∈ I s, ∀ d < s.dim, s.lmin < l.getD d 0 → bump l d (-1) ∈ s.old
-  noFwd    : ∀ l ∈ s.active, ∀ d < s.dim, bump l d 1 ∉ I s
-  nonempty : I s ≠ []
-
-theorem inv_init (dim : Nat) (lmin lmax : Int) (hd : 1 ≤ dim) (h0 : 0 ≤ lmin) (h : lmin ≤ lmax) :
-    SchemeInv (CS.init dim lmax lmin) := sorry
-
-theorem inv_update (s : CS) (lv : LV) (h : SchemeInv s) : SchemeInv (s.update lv).1 := sorry
 
 theorem inv_runOps (s : CS) (ops : List LV) (h : SchemeInv s) : SchemeInv (runOps s ops) := by
   induction ops generalizing s with
   | nil => simpa [runOps] using h
   | cons lv ops ih => simpa [runOps] using ih (s.update lv).1 (inv_update s lv h)
-
-theorem runOps_dim (s : CS) (ops : List LV) : (runOps s ops).dim = s.dim := sorry
-theorem runOps_lmin (s : CS) (ops : List LV) : (runOps s ops).lmin = s.lmin := sorry
-
-theorem update_not_refinable (s : CS) (lv : LV) (h : lv ∉ s.active) : s.update lv = (s, none) := sorry
-
-theorem downward_closed (s : CS) (h : SchemeInv s) (l t : LV) (hl : l ∈ I s)
-    (ht : t.length = s.dim) (hmin : geAll s.lmin t) (hle : leAll t l = true) : t ∈ I s := sorry
-
-theorem coeff_identity (s : CS) (h : SchemeInv s) (t : LV) (ht : t.length = s.dim) (hmin : geAll s.lmin t) :
-    domSum s.coeffs t = if t ∈ I s then 1 else 0 := sorry
-
-theorem coeff_support (s : CS) (h : SchemeInv s) :
-    (∀ p ∈ s.coeffs, p.1 ∈ I s ∧ p.2 ≠ 0) ∧ (s.coeffs.map (·.1)).Nodup := sorry
-
-theorem coeff_total (s : CS) (h : SchemeInv s) : (s.coeffs.map (·.2)).sum = 1 := sorry
 
 end SparseSpace
